@@ -263,3 +263,61 @@ Section EscapeBy.
     - apply wf_eitems_of.
   Qed.
 End EscapeBy.
+
+(** * A double quote written as backslash + quote inside a double-quoted word *)
+(** inside double quotes with a pending backslash *)
+Definition st_qbs (r : list (tag * str)) (tk : str) (hd : bool) : st :=
+  mk r TDq TNone tk true false false false hd false TNone false.
+
+Definition dq_esc (t : str) : str := flat_map (fun c => if c =? c_dq then [c_bs; c_dq] else [c]) t.
+
+Lemma step_quote_bs_dq r tk hd nxt : step (st_quote r TDq tk hd) c_bs nxt = Cont (st_qbs r tk hd).
+Proof. destruct hd; reflexivity. Qed.
+
+Lemma step_qbs_dq r tk hd nxt : step (st_qbs r tk hd) c_dq nxt = Cont (st_quote r TDq (c_dq :: tk) hd).
+Proof. destruct hd; reflexivity. Qed.
+
+Lemma classify_dq c : classify c = KDq -> c = c_dq.
+Proof.
+  unfold classify.
+  repeat match goal with |- context [if ?x =? ?k then _ else _] =>
+    destruct (N.eqb_spec x k) as [->|_] end; intros H; try discriminate H; reflexivity.
+Qed.
+
+Lemma loop_dq_esc t : has_cls KBs t = false -> forall r tk hd rest,
+  loop (st_quote r TDq tk hd) (dq_esc t ++ rest) = loop (st_quote r TDq (rev t ++ tk) (hd_after hd t)) rest.
+Proof.
+  induction t as [|c t IH]; intros Hb r tk hd rest; [reflexivity|].
+  apply has_cls_cons in Hb as [Hc Hb]. unfold dq_esc. cbn [flat_map]. fold (dq_esc t). rewrite <- app_assoc.
+  destruct (N.eqb_spec c c_dq) as [->|Hne].
+  - cbn [app]. rewrite loop_cons, step_quote_bs_dq, loop_cons, step_qbs_dq. rewrite (IH Hb).
+    cbn [rev hd_after]. unfold hd_upd. change (cls_eqb (classify c_dq) KDollar) with false. rewrite orb_false_r.
+    now rewrite <- app_assoc.
+  - cbn [app]. rewrite loop_cons.
+    rewrite (step_quote_body r TDq tk hd c _ (or_intror eq_refl)); [| |now right].
+    + rewrite (IH Hb). cbn [rev hd_after]. now rewrite <- app_assoc.
+    + cbn [qcls]. intros E. apply classify_dq in E. contradiction.
+Qed.
+
+(** command word, a blank, a double-quoted word whose quotes are escaped: two tokens *)
+Theorem parse_line_dq_escaped cmd t :
+  plain_word cmd = true -> forallb arith_body cmd = false -> has_cls KBs t = false ->
+  parse_line (cmd ++ c_space :: c_dq :: dq_esc t ++ [c_dq]) = [(TNone, cmd); (TDq, t)].
+Proof.
+  intros Hw Hna Hb. unfold parse_line. rewrite (not_arith _ _ Hna).
+  apply andb_true_iff in Hw as [Hne' Hall]. destruct cmd as [|c cmd]; [discriminate|].
+  cbn [forallb] in Hall. apply andb_true_iff in Hall as [Hc Hall]. apply cls_eqb_eq in Hc.
+  change st0 with (st_round [] false). cbn [app]. rewrite loop_cons, (step_round_plain [] false c _ Hc).
+  assert (E : forall rest, loop (st_word [] [c] false) (cmd ++ rest) =
+              loop (st_word [] (rev cmd ++ [c]) false) rest).
+  { intros rest. destruct cmd as [|c' cmd']; [reflexivity|].
+    apply loop_word; [|exact Hall]. cbn. cbn in Hall. apply andb_true_iff in Hall as [H1 _]. now rewrite H1. }
+  rewrite E. rewrite loop_cons, step_word_space.
+  rewrite loop_cons, (step_round_open _ _ TDq c_dq _ (or_intror eq_refl) eq_refl).
+  rewrite (loop_dq_esc t Hb). cbn [app]. rewrite loop_cons.
+  rewrite (step_quote_close _ TDq _ _ c_dq _ (or_intror eq_refl) eq_refl).
+  match goal with |- finish (loop (st_closed ?r0 ?q0 ?tk0 ?h0) _) = _ =>
+    destruct (loop_args [] eq_refl r0 q0 tk0 h0 (or_intror eq_refl)) as (hd' & Ef & _) end.
+  refine (eq_trans Ef _). cbn [rev app map]. rewrite app_nil_r, rev_involutive.
+  rewrite rev_app_distr, rev_involutive. reflexivity.
+Qed.
